@@ -12,7 +12,7 @@ import time
 import contextlib
 import numpy as np
 
-from . import core, zoo, obs, faults
+from . import core, zoo, obs, faults, simdisk
 from .core import HarnessError
 
 PROP = "C03"
@@ -79,6 +79,8 @@ def gen_history(seed, tier="quick", zoo_filter=None, faults_on=True):
     p_excursion = rng.uniform(0.1, 0.6) if methods else 0.0
     p_driver = 0.35 if use_driver else 0.0
     p_revisit = rng.uniform(0.1, 0.5)
+    has_disk = "disk_dir" in model.notes
+    p_disk = (rng.uniform(0.2, 0.7) if (faults_on and rng.random() < 0.8) else 0.0) if has_disk else 0.0
 
     def lin_op():
         r = rng.random()
@@ -118,6 +120,9 @@ def gen_history(seed, tier="quick", zoo_filter=None, faults_on=True):
             ops.append({"op": "scribble", "kind": rng.choice(["zeros", "initial", "scale", "donor", "noise"]),
                         "factor": round(rng.uniform(0.0, 3.0), 3), "donor": rng.randrange(len(points)),
                         "nseed": rng.randrange(10**6)})
+        if v > 0 and has_disk and rng.random() < p_disk:
+            ops.append({"op": "disk", "fault": rng.choice(["enoent", "eacces", "enospc", "enospc"]),
+                        "after": rng.choice([0, 1, 60, 150, 400, 900, 10**7])})
         if v > 0 and rng.random() < p_abort:
             if model.coupled and rng.random() < 0.4:
                 # the natural failed evaluation: the coupled solver runs out of sweeps and raises AnalysisError
@@ -236,6 +241,7 @@ class Reference:
         if need in ("out", "lin") and "lin" not in ent:
             m = self._fresh(point)
             ent["out"] = obs.read_outputs(m.prob)
+            ent["files"] = simdisk.read_files(m.prob)  # what the evaluation wrote to the (simulated) disk, if it writes
             with _quiet():
                 m.prob.model.run_linearize()
             ent["lin"] = obs.read_subjacs(m.prob)
@@ -322,6 +328,7 @@ def execute(hist, stop_at_first=True, known=None, collect=True):
 def _execute(hist, stop_at_first, known, collect, spec, points, tighten, log, res, probes, probe, fired, server):
     model = zoo.build(spec)
     _configure(model, tighten)
+    disk_dir = model.notes.get("disk_dir")
     prob = model.prob
     coupled = bool(model.coupled)
     rt_out, at_out, rt_jac, at_jac, rt_tot, at_tot = TOL["coupled" if coupled else "plain"]
@@ -385,6 +392,14 @@ def _execute(hist, stop_at_first, known, collect, spec, points, tighten, log, re
             violation("outputs", key, err, scale, opi, {"after": label})
             if stop:
                 return
+        if disk_dir is not None and "files" in r:
+            # the solution files of the last completed evaluation are outputs of the analysis too
+            fbad = simdisk.compare_files(simdisk.read_files(prob), r["files"])
+            probe("solution_files_compared")
+            for key, err, scale in fbad[:2]:
+                violation("files", key, err, scale, opi, {"after": label})
+                if stop:
+                    return
 
     def check_subjacs(opi, label, only_comps=None):
         r = ref.get(cur, cur_point, "lin")
@@ -442,7 +457,7 @@ def _execute(hist, stop_at_first, known, collect, spec, points, tighten, log, re
         legal = True
         if kind in ("linearize", "compute_totals", "check_partials", "check_totals") and (not converged or zoo.is_wind_off(cur_point)):
             legal = False  # never linearise an unconverged model, nor a wind-off point (0/0 functionals)
-        if kind in ("run_model", "scribble", "abort", "run_driver", "starve") and cur is None:
+        if kind in ("run_model", "scribble", "abort", "run_driver", "starve", "disk") and cur is None:
             legal = False
         if kind == "run_driver" and not spec.get("driver"):
             legal = False
@@ -590,6 +605,32 @@ def _execute(hist, stop_at_first, known, collect, spec, points, tighten, log, re
                         converged = True
                         visited_run.append(cur)
                 log.add("abort", target, at, aborted, inj.fired[1:] if inj.fired else None)
+            elif kind == "disk":
+                # the disk under the solution writer fails during an evaluation: directory gone, read-only, or full
+                # part-way through the file (a torn file stays behind). The evaluation has to fail loudly; the Problem
+                # is then used again like after any failed evaluation.
+                if disk_dir is None or not visited_run:
+                    res["ops_skipped"] += 1
+                    log.add(kind, "skipped")
+                    continue
+                dsk = simdisk.DISK
+                dsk.arm(disk_dir, op["fault"], op.get("after"))
+                raised = None
+                try:
+                    with _quiet():
+                        prob.run_model()
+                except Exception as e:  # OpenMDAO re-wraps an OSError (its message helper cannot take errno args)
+                    raised = type(e).__name__
+                finally:
+                    dsk.disarm(disk_dir)
+                if raised is None:
+                    converged = True  # the fault did not bite (disk filled up later than the file is long): an ordinary run
+                    visited_run.append(cur)
+                else:
+                    converged = False
+                    fired("disk_" + op["fault"])
+                    probe("disk_error_during_evaluation")
+                log.add("disk", op["fault"], op.get("after"), raised)
             elif kind == "starve":
                 import openmdao.api as om
 
